@@ -12,6 +12,11 @@ def load_json(p):
     except Exception:
         return {}
 
+# patches edited after they were made, and why
+REBASED = {
+    "C10/r5B": " | patch.diff rebased onto /repo d27dd89 (the fix changed the line the patch removes: `p.exists()` -> `p.is_file()`); the change itself is unaltered",
+}
+
 demos = {}
 import glob
 for f in sorted(glob.glob(os.path.join(SRC, "verify-demos-*.json"))):
@@ -94,7 +99,7 @@ for rnd, prefix in ((1, "out-"), (2, "out2-"), (3, "out3-"), (4, "out4-"), (5, "
                     "demonstration": d.get("demo"),
                     "demonstration_fails_with_change": d.get("fails_with_change"),
                     "demonstration_passes_without_change": d.get("passes_without_change"),
-                    "notes": d.get("notes"),
+                    "notes": (d.get("notes") or "") + REBASED.get(key, ""),
                 },
                 "what_was_run": [
                     "git apply patch.diff in a scratch worktree of /repo (outside /repo and /verif); cargo test --workspace --offline",
